@@ -490,7 +490,8 @@ def constructor_table(ctx, rule, class_qualname, max_tokens, mode="wellformed", 
             return (key, ("limits", _show(actual_lower), _show(actual_upper)), ("limits", _show(expected_lower), _show(expected_upper)))
         return (key, "ok", "ok")
 
-    return decide(ctx, rule, "constructor(<=%d tokens,%s)" % (max_tokens, mode), qualname, cell, min_cells=20)
+    return decide(ctx, rule, "constructor(<=%d tokens,%s)" % (max_tokens, mode), qualname, cell, min_cells=20,
+                  key_name="constructor(%s)" % mode)
 
 
 def _decimal_methods(symbol):
